@@ -931,6 +931,23 @@ pub fn check_c09(case: &RCase, log: &RunLog, m: &Modelled) -> Vec<Violation> {
             out.push(v("C09/after-hook-reason", "after hook received StepFailed(NotFound) from the runner".into()));
         }
     }
+    // before hook: once in *every* attempt (first attempts and retries alike), unless the
+    // attempt's World could not be created (then the hook is reported failed without being called)
+    if case.before {
+        let mut per: BTreeMap<&str, (usize, usize)> = BTreeMap::new();
+        for a in m.attempts.iter().filter(|a| a.started.is_some()) {
+            let e = per.entry(a.scenario.as_str()).or_default();
+            e.0 += 1;
+            e.1 += usize::from(a.world_init_failed);
+        }
+        for (name, (n_att, n_wfail)) in per {
+            let key = format!("before:{name}");
+            let n_calls = calls.iter().filter(|c| c.phase == Phase::Enter && c.key == key).count();
+            if n_calls + n_wfail != n_att {
+                out.push(v("C09/before-hook-count", format!("{name}: {n_att} attempts started ({n_wfail} of them could not create their World), but the before hook was invoked {n_calls} times")));
+            }
+        }
+    }
     if !case.before {
         // without a before hook a World is created only if a step matched
         for g in groups.values() {
